@@ -262,7 +262,7 @@ func checkNow() string {
 // runner, the same parsed tree or the same data map is used again, with other
 // evaluations and pauses in between. hist selects the shape of the history.
 func checkNowHistory(hist int) string {
-	texts := []string{"now()", "[now(), millSecond(now())]", "year(now()) > 2000 ? now() : null", "$n = now(), $n", "toDay() <= now() ? now() : 1"}
+	texts := []string{"now()", "[now(), millSecond(now())]", "year(now()) > 2000 ? now() : null", "$n = now(), $n", "millSecond(toDay()) <= millSecond(now()) ? now() : 1"}
 	text := texts[hist%len(texts)]
 	p := obs.Parse([]byte(text))
 	if !p.OK() {
